@@ -13,6 +13,7 @@ import (
 	"bytes"
 	"encoding/json"
 	"fmt"
+	"io"
 	"os"
 	"os/exec"
 	"path/filepath"
@@ -293,7 +294,7 @@ func runChild(c *core.Ctx, v *variant, cases []json.RawMessage, lo, hi int, res 
 	}
 	jb, _ := os.ReadFile(jr)
 	journaled, _ = strconv.Atoi(strings.TrimSpace(string(jb)))
-	logb, _ := os.ReadFile(lg)
+	logb := readCapped(lg, 8<<20)
 	// "output is discarded": nothing the guest wrote may reach the real stdout/stderr
 	if i := bytes.Index(logb, []byte(writeMarker)); i >= 0 {
 		e := i + 80
@@ -336,6 +337,19 @@ func runChild(c *core.Ctx, v *variant, cases []json.RawMessage, lo, hi int, res 
 		cr.Kind, cr.Detail = "exit", fmt.Sprintf("%v", err)
 	}
 	return journaled, cr, marker
+}
+
+// readCapped reads at most max bytes of a child's log. (If the guest ever gets
+// at the real stdout/stderr, fd_pwrite with a huge offset makes the log a
+// sparse file of many GiB: never read it whole.)
+func readCapped(path string, max int64) []byte {
+	f, err := os.Open(path)
+	if err != nil {
+		return nil
+	}
+	defer f.Close()
+	b, _ := io.ReadAll(io.LimitReader(f, max))
+	return b
 }
 
 // ---------------------------------------------------------------------------
@@ -420,8 +434,7 @@ func run(c *core.Ctx) int {
 			if r.Crash != nil {
 				switch r.Crash.Kind {
 				case "race":
-					logb, _ := os.ReadFile(r.Crash.Log)
-					for key, rep := range core.RaceReports(logb) {
+					for key, rep := range core.RaceReports(readCapped(r.Crash.Log, 8<<20)) {
 						c.Violate("race:"+strings.ReplaceAll(key, "github.com/tetratelabs/wazero", "wazero"), rep, map[string]any{"variant": v.describe(), "report": rep})
 					}
 					c.Count("race_reports", 1)
@@ -455,6 +468,10 @@ func run(c *core.Ctx) int {
 				continue
 			}
 			if so.ID >= nScripts {
+				continue
+			}
+			if so.GaveUp != "" {
+				c.Inconclusive("child-gave-up:" + so.GaveUp)
 				continue
 			}
 			cells[vi][so.ID] = cell{out: &so, crash: r.Crash}
